@@ -18,10 +18,19 @@ type stream struct {
 	first    bool
 	ended    bool
 	dropPart bool
+	waiting  bool // the stream's handler waits for a downstream channel: nothing is read yet
+}
+
+type waitInfo struct {
+	s     string
+	svchs []string
 }
 
 type gen struct {
 	a          *hx.Args
+	same22     bool      // the manager is created with 2 and 2 channels: a handler whose downstream channel is taken waits
+	waiter     *waitInfo // the handler that waits for a downstream channel (at most one at a time)
+	wakes      []string  // set by newColl: the virtual channels that start reading because this collection forwarded a channel
 	handlerTgt map[string]string
 	usedTgt    map[string]bool
 	colls      []*coll
@@ -44,14 +53,25 @@ func (g *gen) newColl(i int, allowErr bool) *coll {
 		sortInts(sp)
 		sortInts(tp)
 		ok := true
+		wake, wait := -1, -1
 		for j := 0; j < k; j++ {
 			s, t := srcs[sp[j]], tgts[tp[j]]
-			if ht, has := g.handlerTgt[s]; has {
-				if ht != t && !g.usedTgt[t] && !(allowErr && r.Intn(20) == 0) {
-					ok = false // forward to a channel nobody owns: an error path, kept rare
+			if g.waiter != nil && g.waiter.s == s {
+				ok = false // the key of the waiting handler is left alone
+			} else if ht, has := g.handlerTgt[s]; has {
+				if ht != t && !g.usedTgt[t] {
+					if g.waiter != nil && wake < 0 {
+						wake = j // the channel is forwarded to the waiting handler
+					} else if !(allowErr && r.Intn(20) == 0) {
+						ok = false // forward to a channel nobody owns: an error path, kept rare
+					}
 				}
 			} else if g.usedTgt[t] {
-				ok = false // a new handler whose downstream channel is taken: the wait path is not generated
+				if g.same22 && k == 1 && g.waiter == nil {
+					wait = j // a new handler whose downstream channel is taken: it waits
+				} else {
+					ok = false
+				}
 			}
 		}
 		if !ok {
@@ -61,9 +81,20 @@ func (g *gen) newColl(i int, allowErr bool) *coll {
 			s, t := srcs[sp[j]], tgts[tp[j]]
 			c.src = append(c.src, [2]string{fmt.Sprintf("%s_%dv%d", s, c.id, j), s})
 			c.tgt = append(c.tgt, [2]string{fmt.Sprintf("%s_%dv%d", t, c.tid, j), t})
-			if _, has := g.handlerTgt[s]; !has {
-				g.handlerTgt[s] = t
+			switch {
+			case j == wait:
+				g.waiter = &waitInfo{s: s, svchs: []string{c.src[j][0]}}
+				c.waitv = map[string]bool{c.src[j][0]: true}
+			case j == wake:
+				g.handlerTgt[g.waiter.s] = t
 				g.usedTgt[t] = true
+				g.wakes = g.waiter.svchs
+				g.waiter = nil
+			default:
+				if _, has := g.handlerTgt[s]; !has {
+					g.handlerTgt[s] = t
+					g.usedTgt[t] = true
+				}
 			}
 		}
 		// the catalogs may list the shards in any order
@@ -94,6 +125,12 @@ func generate(a *hx.Args, mode string) ([]label, int) {
 	r := a.Rng
 	g := &gen{a: a, handlerTgt: map[string]string{}, usedTgt: map[string]bool{}, added: map[string]bool{}}
 	n := 1 + r.Intn(3)
+	if r.Intn(4) == 0 {
+		// two and two channels: the wait / forward path of the manager
+		g.same22 = true
+		g.labels = append(g.labels, label{kind: "config", ns: 2, nt: 2})
+		n = 2 + r.Intn(3)
+	}
 	lazy := r.Intn(12) == 0 // one lazily learnt partition in this case (costs half a second)
 	for i := 0; i < n; i++ {
 		c := g.newColl(i, mode == "c02")
@@ -111,9 +148,17 @@ func generate(a *hx.Args, mode string) ([]label, int) {
 			}
 		}
 		g.colls = append(g.colls, c)
-		g.labels = append(g.labels, label{kind: "start", c: c})
+		g.labels = append(g.labels, label{kind: "start", c: c, wakes: g.wakes})
+		for _, v := range g.wakes {
+			for _, st := range g.streams {
+				if st.svch == v {
+					st.waiting = false
+				}
+			}
+		}
+		g.wakes = nil
 		for _, p := range c.src {
-			g.streams = append(g.streams, &stream{c: c, svch: p[0], spch: p[1], ts: uint64(1000*(i+1) + r.Intn(500)), first: true})
+			g.streams = append(g.streams, &stream{c: c, svch: p[0], spch: p[1], ts: uint64(1000*(i+1) + r.Intn(500)), first: true, waiting: c.waitv[p[0]]})
 		}
 		for k := 1; k <= 2; k++ {
 			if r.Intn(2) == 0 {
@@ -131,7 +176,7 @@ func generate(a *hx.Args, mode string) ([]label, int) {
 	for f := 0; f < nfeeds; f++ {
 		var live []*stream
 		for _, s := range g.streams {
-			if !s.ended {
+			if !s.ended && !s.waiting {
 				live = append(live, s)
 			}
 		}
@@ -271,6 +316,20 @@ func corpus(out *cq.Out) {
 	runCase(out, 1, []label{{kind: "start", c: a}, {kind: "start", c: b}, feed(a, 0, 100, 104, ins(1, 102)), feed(b, 0, 2000, 2003, ib(2, 2002)),
 		feed(b, 0, 2003, 2004), feed(a, 1, 300, 302, ins(3, 301)), feed(b, 0, 2004, 2006, ib(4, 2005), ib(5, 2006))},
 		"corpus: forward path (second collection of a source channel on another downstream channel)")
+	// two and two channels: the handler of the second collection finds its downstream channel taken and waits; the third
+	// collection (first source channel, second downstream channel) makes the manager forward the free channel to it; the second
+	// collection's messages must still arrive on the channel that hosts its virtual channel
+	wa := &coll{id: 1, tid: 9001, name: "c1", src: [][2]string{{"src-dml_0_1v0", "src-dml_0"}}, tgt: [][2]string{{"tgt-dml_0_9001v0", "tgt-dml_0"}}, parts: map[string]int64{"_default": 900100}}
+	wb := &coll{id: 2, tid: 9002, name: "c2", src: [][2]string{{"src-dml_1_2v0", "src-dml_1"}}, tgt: [][2]string{{"tgt-dml_0_9002v0", "tgt-dml_0"}}, parts: map[string]int64{"_default": 900200},
+		waitv: map[string]bool{"src-dml_1_2v0": true}}
+	wc := &coll{id: 3, tid: 9003, name: "c3", src: [][2]string{{"src-dml_0_3v0", "src-dml_0"}}, tgt: [][2]string{{"tgt-dml_1_9003v0", "tgt-dml_1"}}, parts: map[string]int64{"_default": 900300}}
+	ic := func(id uint64, ts uint64) smsg {
+		return smsg{kind: "insert", id: id, coll: 3, part: 300, pname: "_default", ts: ts, rows: 1}
+	}
+	runCase(out, 1, []label{{kind: "config", ns: 2, nt: 2}, {kind: "start", c: wa}, {kind: "start", c: wb}, feed(wa, 0, 100, 104, ins(1, 102)),
+		{kind: "start", c: wc, wakes: []string{"src-dml_1_2v0"}}, feed(wb, 0, 2000, 2003, ib(2, 2002)), feed(wc, 0, 3000, 3003, ic(3, 3002)),
+		feed(wb, 0, 2003, 2004), feed(wa, 0, 104, 106, ins(4, 105)), feed(wb, 0, 2004, 2006, ib(5, 2005), ib(6, 2006))},
+		"corpus: a waiting handler is given another downstream channel (wait / forward path)")
 	// a two-shard collection dropped: the event only after both shards
 	d := &coll{id: 1, tid: 9001, name: "c1", src: [][2]string{{"src-dml_0_1v0", "src-dml_0"}, {"src-dml_1_1v1", "src-dml_1"}},
 		tgt: [][2]string{{"tgt-dml_0_9001v0", "tgt-dml_0"}, {"tgt-dml_1_9001v1", "tgt-dml_1"}}, parts: map[string]int64{"_default": 900100, "p1": 900101}}
